@@ -955,7 +955,7 @@ func (f *frame) copyBuiltin(n *node, in *ssa.Call) Val {
 func (f *frame) opaqueCall(n *node, callee *ssa.Function, args []Val) (Val, bool) {
 	x := f.x
 	g := x.g
-	revealed := false
+	revealed := x.revealAll // a lemma is a statement about the specification functions themselves
 	if x.ctr != nil {
 		for _, r := range x.ctr.Reveal {
 			if r == callee.Name() {
@@ -1199,6 +1199,12 @@ func (f *frame) localAt(at ssa.Instruction, name string) ssa.Value {
 			switch d := b.Instrs[i].(type) {
 			case *ssa.DebugRef:
 				if id, ok := d.Expr.(*ast.Ident); ok && id.Name == name && !d.IsAddr {
+					if _, isConst := d.X.(*ssa.Const); isConst && f.x.w.DefPos[id.Pos()] {
+						continue // the declaration's reference holds the stale zero value
+					}
+					if os.Getenv("IONVC_DEBUGINV") != "" {
+						fmt.Fprintf(os.Stderr, "  localAt(%s): block %d instr %d: %s\n", name, b.Index, i, d.X.String())
+					}
 					return d.X
 				}
 			case *ssa.Phi:
